@@ -10,7 +10,13 @@ VirtualTimeScheduler / TestScheduler / HistoricalScheduler under a wall-clock
 watchdog (lib.with_timeout, BaseException based); the model is evaluated on the
 same histories and compared.  Oracle: the call returned, every non-cancelled
 action ran exactly once, a second start() runs what was scheduled after the
-first."""
+first.
+
+Added after the coverage audit: TestScheduler.start() ITSELF as the driver (drive
+start_test: its three own items, then the inherited loop) with >= 102 actions at
+one instant, and actions scheduled / rescheduling themselves INTO THE PAST
+(families chain_past, flat_past; negative delays in the random bursts), which take
+the same spin path because the clock cannot advance to a due time behind it."""
 import json
 
 import lib
@@ -42,6 +48,12 @@ def family(mode, n, rng):
         return [["do", chain(n, ["now"])]] if n else []
     if mode == "chain_rel0":
         return [["do", chain(n, ["rel", 0])]] if n else []
+    if mode == "chain_past":
+        # self-rescheduling INTO THE PAST (due = clock - 1 s): the clock cannot advance, same spin path
+        return [["do", chain(n, ["rel", -U])]] if n else []
+    if mode == "flat_past":
+        # n actions due before the current clock (relative -1 s and absolute 0 alternately)
+        return [["do", ["sched", ["rel", -U] if i % 2 else ["abs", 0], i, []]] for i in range(n)]
     if mode == "mixed":
         return [["do", ["sched", ["rel", 0], i,
                         [["sched", ["rel", 500000], 10000 + i, []]] if i % 7 == 0 else
@@ -56,7 +68,7 @@ def family(mode, n, rng):
 
 def gen_cases(tier, rng):
     ns = [0, 1, 2, 50, 99, 100, 101, 102, 103, 104, 150, 201, 202, 203, 204, 205, 250, 303, 304, 400]
-    modes = ["flat", "flat_abs", "chain", "chain_rel0", "mixed", "two_instants"]
+    modes = ["flat", "flat_abs", "chain", "chain_rel0", "mixed", "two_instants", "chain_past", "flat_past"]
     if tier == "quick":
         ns = [0, 1, 100, 101, 102, 103, 204, 205, 400]
     out = []
@@ -65,29 +77,39 @@ def gen_cases(tier, rng):
             for n in ns:
                 if mode == "two_instants" and n > 250:
                     continue
-                for drive in ("start", "advto"):
+                # start_test = TestScheduler.start() itself (its own create/subscribe/dispose items at
+                # 100 s / 200 s / 1000 s, then the inherited run loop)
+                for drive in ("start", "advto") + (("start_test",) if world == "test" else ()):
                     if tier == "quick" and drive == "advto" and n not in (1, 102, 204):
                         continue
+                    if tier == "quick" and drive == "start_test" and n not in (101, 102, 205):
+                        continue
+                    if tier == "quick" and mode in ("chain_past", "flat_past") and n in (0, 100, 204):
+                        continue
                     h = family(mode, n, rng)
-                    h.append(["start"] if drive == "start" else ["advto", 5 * U])
+                    h.append({"start": ["start"], "advto": ["advto", 5 * U], "start_test": ["start_test"]}[drive])
                     # a drained scheduler is started again
-                    h += [["do", ["sched", ["now"], 99999, []]], ["start"] if drive == "start" else ["advby", U]]
+                    h += [["do", ["sched", ["now"], 99999, []]],
+                          {"start": ["start"], "advto": ["advby", U], "start_test": ["start_test"]}[drive]]
                     out.append((world, rng.choice([0, 0, U, 12345]) if mode != "flat_abs" else 0, h,
                                 f"{mode}/{drive}", n))
     nr = 40 if tier == "quick" else 400
     for _ in range(nr):
         world = rng.choice(vt.WORLDS)
         unit = rng.choice([U, 1000, 1])
-        g = vt.Gen(rng, unit=unit, allow=("cancel", "sleep"), max_depth=3, neg=False)
+        past = rng.random() < 0.4          # also due times before the clock (relative delays < 0)
+        g = vt.Gen(rng, unit=unit, allow=("cancel", "sleep"), max_depth=3, neg=past)
         h = []
         for _ in range(rng.randrange(1, 4)):
             k = rng.choice([3, 40, 101, 102, 120, 210])
-            w = rng.choice([["now"], ["rel", 0], ["abs", unit * rng.randrange(0, 4)]])
+            w = rng.choice([["now"], ["rel", 0], ["abs", unit * rng.randrange(0, 4)]] +
+                           ([["rel", -unit], ["rel", -3 * unit]] if past else []))
             for _ in range(k):
                 c = g.sched(2)
                 c[1] = w
                 h.append(["do", c])
-            h.append(rng.choice([["start"], ["advby", 4 * unit], ["advto", 20 * unit]]))
+            h.append(rng.choice([["start"], ["advby", 4 * unit], ["advto", 20 * unit]] +
+                                ([["start_test"]] if world == "test" else [])))
         out.append((world, 0, h, "random", vt.hsize(h)))
     return out
 
@@ -99,7 +121,9 @@ def run(chk):
         chk.cov["search"] = "theorem or build broke: scope enlarged to thorough"
     cases = gen_cases(tier, chk.rng)
     gal, failures, nontrivial = [], [], set()
-    hist = {"world": {}, "family": {}, "actions_per_history": {"0-99": 0, "100-101": 0, "102-203": 0, ">=204": 0}}
+    hist = {"world": {}, "family": {}, "actions_per_history": {"0-99": 0, "100-101": 0, "102-203": 0, ">=204": 0},
+            "TestScheduler.start()_calls": 0, "TestScheduler.start()_with>=102_actions_pending": 0,
+            "actions_scheduled_into_the_past": 0, "histories_with>=102_actions_scheduled_into_the_past": 0}
     hangs = {}
     kept = []
     for (world, c0, h, fam, n) in cases:
@@ -117,6 +141,18 @@ def run(chk):
                                     "102-203" if size < 204 else ">=204"] += 1
         if size >= 102:
             nontrivial.add((world, fam, n, c0))
+        npend, npast = 0, 0
+        for e in trace:
+            if e[0] == "sched":
+                npend += 1
+                npast += e[3] < e[4]
+            elif e[0] == "run":
+                npend -= 1
+            elif e[0] == "top" and e[1] == "start_test":
+                hist["TestScheduler.start()_calls"] += 1
+                hist["TestScheduler.start()_with>=102_actions_pending"] += npend >= 102
+        hist["actions_scheduled_into_the_past"] += npast
+        hist["histories_with>=102_actions_scheduled_into_the_past"] += npast >= 102
         bad = vt.oracle_vt(world, trace)
         # everything scheduled ran exactly once (these families never stop or raise)
         sched = {e[1] for e in trace if e[0] == "sched"}
@@ -158,10 +194,13 @@ def run(chk):
                                          "n": cases[i][4]} for i in firsts]})
     chk.cov["distinct_nontrivial"] = len(nontrivial)
     chk.cov["rule"] = ("families flat / flat_abs / chain (self-rescheduling at the current time) / chain_rel0 / mixed "
-                       "(later items, sleeping, cancelling, nested) / two_instants with n in 0..400 same-instant "
-                       "actions around the spin thresholds 101/102 and 203/204, driven by start() and by "
-                       "advance_to(), each followed by a restart; on VirtualTimeScheduler, TestScheduler and "
-                       "HistoricalScheduler (datetime clock), initial clocks 0, 1 s, 12345 us; plus random bursts.  "
+                       "(later items, sleeping, cancelling, nested) / two_instants / chain_past (self-rescheduling "
+                       "with delay -1 s, i.e. into the past) / flat_past (n actions due before the clock) with n in "
+                       "0..400 same-instant actions around the spin thresholds 101/102 and 203/204, driven by "
+                       "start(), by advance_to() and -- on TestScheduler -- by TestScheduler.start() itself "
+                       "(start_test), each followed by a restart with the same driver; on VirtualTimeScheduler, "
+                       "TestScheduler and HistoricalScheduler (datetime clock), initial clocks 0, 1 s, 12345 us; "
+                       "plus random bursts (40 % with negative delays, TestScheduler.start() among the drivers).  "
                        "non-trivial = distinct (world, family, n, c0) with at least 102 actions (spin bump reached)")
     chk.cov["input_distribution"] = hist
     chk.add_samples([{"world": c[0], "c0": c[1], "family": c[3], "n": c[4]} for c in cases[::max(1, len(cases) // 6)]])
@@ -180,6 +219,17 @@ def replay(chk, path):
     obs, trace = vt.run_impl(d["world"], d["c0"], d["history"], timeout=5.0)
     bad = vt.oracle_vt(d["world"], trace)
     print("world", d["world"], "family", d.get("family"), "n", d.get("n"), "last observations", obs[-4:])
+    bad = [b for b in bad if b[0] != "advance_to-target-equals-clock"]      # C28's recorded finding
+    sched = {e[1] for e in trace if e[0] == "sched"}
+    cancelled = {e[1] for e in trace if e[0] == "cancel"}
+    ran = [e[1] for e in trace if e[0] == "run"]
+    if not any(e[0] == "hang" for e in trace) and d.get("family") != "random":
+        if sorted(ran) != sorted(sched - cancelled) and not (sched & cancelled):
+            bad.append(("not-every-action-ran", f"scheduled {len(sched)} ran {len(ran)}"))
+        if len(ran) != len(set(ran)):
+            bad.append(("action-ran-twice", ""))
     for sig, detail in bad:
         print("FAILS", sig, detail)
+    if bad:
+        print(f"VIOLATION property=C29 replay={path}")
     return 1 if bad else 0
